@@ -97,6 +97,8 @@ const (
 	E_AliasBytesChange = 150
 	E_NewOfflineSignature = 160
 	E_NewKeysAndCertFromParts = 161
+	E_ELSSplit = 170
+	E_BlindingDate = 171
 )
 
 var entryNames = map[int]string{
@@ -195,4 +197,6 @@ var entryNames = map[int]string{
 	150: "AliasBytesChange",
 	160: "NewOfflineSignature",
 	161: "NewKeysAndCertFromParts",
+	170: "ELSSplit",
+	171: "BlindingDate",
 }
